@@ -929,7 +929,7 @@ SIMD_THMS = {"SseHash::zipper_merge": "Sse.zipperMerge_eq", "SseHash::update": "
              "NeonHash::modular_reduction": "NeonG.modularReduction_eq",
              "WasmHash::zipper_merge": "WasmG.zipperMerge_eq", "WasmHash::update": "WasmG.update_eq", "WasmHash::permute_and_update": "WasmG.permuteAndUpdate_eq",
              "WasmHash::modular_reduction": "WasmG.modularReduction_eq",
-             **{f"{h}::finalize{w}": f"{g}.finalize{w}_shape" for h, g in (("NeonHash", "NeonG"), ("WasmHash", "WasmG")) for w in (64, 128, 256)}}
+             **{f"{h}::finalize{w}": f"{g}.finalize{w}_shape" for h, g in (("NeonHash", "NeonG"), ("WasmHash", "WasmG"), ("SseHash", "Sse"), ("AvxHash", "Avx")) for w in (64, 128, 256)}}
 SIMD_SRC = {"x86": "src/x86/sse.rs + v2x64u.rs and src/x86/avx.rs + v4x64u.rs", "neon": "src/aarch64.rs (NeonHash, its V2x64U and _mm_slli_si128_8)",
             "wasm": "src/wasm.rs (WasmHash, its V2x64U and the emulated _mm_* helpers)"}
 
